@@ -9,6 +9,7 @@ import (
 	"encoding/xml"
 	"errors"
 	"fmt"
+	"io"
 	"io/ioutil"
 	"strconv"
 	"strings"
@@ -223,8 +224,12 @@ func (c *Conf) InitFromBytes(content []byte) error {
 	nodeStack = append(nodeStack, c.root)
 	for {
 		currNode := nodeStack[len(nodeStack)-1]
-		token, _ := xmlDecoder.Token()
+		token, err := xmlDecoder.Token()
 		if token == nil {
+			if err != nil && err != io.EOF {
+				// a malformed document must not be accepted with everything after the error dropped
+				return fmt.Errorf("parse config error: %v", err)
+			}
 			break
 		}
 		switch t := token.(type) {
